@@ -308,8 +308,8 @@ func startCanary() {
 
 func stretched(d time.Duration) time.Duration {
 	x := d + 40*time.Duration(atomic.LoadInt64(&canaryMax))
-	if x > d+4*time.Second {
-		x = d + 4*time.Second
+	if x > d+2*time.Second {
+		x = d + 2*time.Second
 	}
 	return x
 }
@@ -335,6 +335,7 @@ type world struct {
 	ended    bool   // the case is over: nothing is logged or held any more
 	endCh    chan struct{}
 	lastSink time.Time // arrival of the last call / accept
+	quietRef time.Time // last moment at which something happened that can make the sink move (data sent, sink call, end of a stall)
 	lastAcc  time.Time
 	accepted map[uint64]int
 	called   map[uint64]int
@@ -414,6 +415,7 @@ func (w *world) beforeData(lsn uint64, text string) <-chan struct{} {
 	isBegin := strings.HasPrefix(text, "BEGIN ")
 	if lsn == w.lastMsgLsn && strings.HasPrefix(text, "COMMIT ") && !w.sentAll {
 		w.sentAll, w.sentAt = true, time.Now()
+		w.quietRef = w.sentAt
 	}
 	w.mu.Unlock()
 	if !isBegin || (pause == 0 && !stall) {
@@ -565,6 +567,7 @@ func (w *world) kinesisHandler(byLsn map[uint64]Change) http.HandlerFunc {
 		kk := k
 		w.addLocked(LogEv{K: "call", Call: &kk, Recs: recs, Note: note})
 		w.lastSink = time.Now()
+		w.quietRef = w.lastSink
 		var g chan struct{}
 		if hold {
 			g = make(chan struct{})
@@ -589,7 +592,7 @@ func (w *world) kinesisHandler(byLsn map[uint64]Change) http.HandlerFunc {
 				w.accepted[r.Lsn]++
 			}
 			w.lastSink = time.Now()
-			w.lastAcc = w.lastSink
+			w.lastAcc, w.quietRef = w.lastSink, w.lastSink
 			if g == nil {
 				w.pending--
 			}
@@ -767,31 +770,40 @@ func (o *outPipe) queued() int {
 	return n
 }
 
-// fill leaves the pipe full: a writer of the parent blocks in it.  Returns true when the amount
-// queued has stopped growing while that writer is still blocked.
+// fill leaves the pipe full: a writer of the parent blocks in it.  Returns true when that writer has
+// written something, has stopped making progress and the amount queued has stopped growing.
 func (o *outPipe) fill(limit time.Duration) bool {
-	junk := bytes.Repeat([]byte("# filler written by the harness to leave the stdout pipe of the child full\n"), 1<<13) // ~600 KiB
+	chunk := bytes.Repeat([]byte("# filler written by the harness to leave the stdout pipe of the child full #\n"), 64)[:4096]
+	var chunks int64
 	done := make(chan struct{})
-	go func() { _, _ = o.pw.Write(junk); close(done) }()
+	go func() {
+		defer close(done)
+		for i := 0; i < 512; i++ { // 2 MiB at most
+			if _, err := o.pw.Write(chunk); err != nil {
+				return
+			}
+			atomic.AddInt64(&chunks, 1)
+		}
+	}()
 	deadline := time.Now().Add(limit)
-	last, stable := -2, 0
+	lastQ, lastC, stable := -2, int64(-1), 0
 	for time.Now().Before(deadline) {
 		select {
 		case <-done:
 			return false // everything fitted: somebody is draining
 		default:
 		}
-		q := o.queued()
-		if q == last && q > 0 {
+		q, n := o.queued(), atomic.LoadInt64(&chunks)
+		if q == lastQ && n == lastC && n >= 1 && q >= 4096 {
 			stable++
-			if stable >= 3 {
+			if stable >= 4 {
 				return true
 			}
 		} else {
 			stable = 0
 		}
-		last = q
-		time.Sleep(5 * time.Millisecond)
+		lastQ, lastC = q, n
+		time.Sleep(stretched(5 * time.Millisecond))
 	}
 	return false
 }
@@ -979,8 +991,7 @@ func runCase(c Case) (res result) {
 		if w.sinkSettledLocked() {
 			return true
 		}
-		q := stretched(400 * time.Millisecond)
-		return w.sentAll && time.Since(w.sentAt) > q && time.Since(w.lastSink) > q
+		return w.sentAll && time.Since(w.quietRef) > stretched(400*time.Millisecond)
 	}, deadline)
 	if !settled {
 		return finish("unsettled")
@@ -994,8 +1005,16 @@ func runCase(c Case) (res result) {
 		// the hold must outlive a ledger tick that comes after the rest was written: either the position
 		// that can be acknowledged right now is seen to be acknowledged (some time after the sink
 		// settled), or a full ledger period passes
+		// (the tracker sometimes skips a tick: its 5 s read deadline can fire a moment before its 5 s
+		// ticker, then the emission comes one period later; so the event is waited for up to two periods)
 		margin := stretched(250 * time.Millisecond)
+		w.mu.Lock()
+		pendingAck := w.acknowledgeableLocked() > ackAtSettle
+		w.mu.Unlock()
 		full := ts.Add(ledgerPeriod + stretched(400*time.Millisecond))
+		if pendingAck {
+			full = ts.Add(2*ledgerPeriod + stretched(400*time.Millisecond))
+		}
 		poll(func() bool {
 			a := w.acknowledgeableLocked()
 			return a > ackAtSettle && w.lastAck >= a && w.ackAt.After(ts.Add(margin))
@@ -1025,7 +1044,8 @@ func runCase(c Case) (res result) {
 		if ts.After(ref) {
 			ref = ts
 		}
-		if w.pending == 0 && len(w.gates) == 0 && time.Since(ref) > 2*ledgerPeriod+stretched(time.Second) {
+		// (an emission can come up to two periods after the previous one, see above)
+		if w.pending == 0 && len(w.gates) == 0 && time.Since(ref) > 2*ledgerPeriod+stretched(2500*time.Millisecond) {
 			res.C02Neg = true
 			return true
 		}
@@ -1037,7 +1057,7 @@ func runCase(c Case) (res result) {
 	if res.C02Neg {
 		return finish("never-acked")
 	}
-	time.Sleep(stretched(30 * time.Millisecond)) // stragglers (a duplicate call would arrive about now)
+	time.Sleep(30 * time.Millisecond) // stragglers (a duplicate call would arrive about now)
 	return finish("acked")
 }
 
@@ -1098,8 +1118,7 @@ func (w *world) stall(out *outPipe, p *os.Process, ready <-chan struct{}, exited
 	for time.Now().Before(lim) {
 		w.mu.Lock()
 		acc := !w.lastAcc.IsZero()
-		q := stretched(400 * time.Millisecond)
-		still := w.sentAll && time.Since(w.sentAt) > q && (w.lastSink.IsZero() || time.Since(w.lastSink) > q)
+		still := w.sentAll && time.Since(w.quietRef) > stretched(400*time.Millisecond)
 		w.mu.Unlock()
 		if acc || still {
 			break
@@ -1107,8 +1126,11 @@ func (w *world) stall(out *outPipe, p *os.Process, ready <-chan struct{}, exited
 		time.Sleep(3 * time.Millisecond)
 	}
 	time.Sleep(stretched(120 * time.Millisecond))
+	w.mu.Lock()
+	w.quietRef = time.Now()
+	w.addLocked(LogEv{K: "stall-end"})
+	w.mu.Unlock()
 	out.unpause()
-	w.add(LogEv{K: "stall-end"})
 	return "achieved"
 }
 
